@@ -75,6 +75,18 @@ fn programs(ctx: &WorkerCtx, p: &Plan, a_len: usize, also_next_shard: bool) -> V
             work.push((b3 + i, c.to_vec()));
         }
     });
+    let bl = base;
+    base += spaces::space_l(0, 2, &mut |i, c| {
+        if mine(bl + i) {
+            work.push((bl + i, c.to_vec()));
+        }
+    });
+    let bl3 = base;
+    base += spaces::space_l3_reduced(&mut |i, c| {
+        if mine(bl3 + i) {
+            work.push((bl3 + i, c.to_vec()));
+        }
+    });
     let b4 = base;
     base += spaces::space_p(p.w_full, &mut |i, c| {
         if mine(b4 + i) {
